@@ -1031,7 +1031,8 @@ func c09Wrap(w *mon.W) {
 				return
 			}
 		}
-		for i := 1; i <= 65534 && ok; i++ {
+		// 65534 calls in all before the pending one, so that it is the call that receives tag 0
+		for i := 1; i <= 65534-3 && ok; i++ {
 			ok = call(i)
 		}
 		if !ok {
